@@ -6,6 +6,13 @@
 //	     subscriber is drained synchronously; model (driverC04) vs pkg/resource: seed and deliveries.
 //	tie  K2 "small-scope": ALL histories up to a length over 2 ids x every subscription point x
 //	     subscription options x equivalence on/off.
+//	tie  K4 "subscribe-during-write" (race.go): a subscriber opens while a write is in flight - parked
+//	     before its bus registration (racea), write parked between commit and publication (raceb), write
+//	     parked inside Bus.Send after its snapshot of the listeners, with cancelled / live listeners in the
+//	     snapshot (racec: the late subscriber must survive that Send's garbage collection and receive
+//	     every later write) - and a Delete overtaken by another write after its first read (raced: the
+//	     REMOVE must carry the item actually removed). The driver's state is the bus model of
+//	     lean/ScVerif/C04/Bus.lean: `unsub` only marks the listener dead, a Send collects lazily.
 //	monitor "writer-log": the received stream vs the writer's own log (what its calls returned),
 //	     independent of the Lean model.
 package main
@@ -232,6 +239,13 @@ func (h *harness) runScript(s Script, tie *lib.Tie) {
 		}
 		if isRace(op) {
 			tie.Count(op.Op + ":" + strings.SplitN(code[i].ans, " ", 2)[0])
+		}
+		if op.Op == "raced" {
+			del, u := splitRaced(op)
+			if halves := strings.SplitN(code[i].ans, " || ", 2); len(halves) == 2 {
+				tie.Count(fmt.Sprintf("raced:same-id=%v overtaking-err=%s delete-err=%s", del.ID == u.ID,
+					part(strings.Replace(halves[0], "uerr=", "err=", 1), "err"), part(halves[1], "err")))
+			}
 		}
 		if op.isWrite() {
 			tie.Count("err:" + part(code[i].ans, "err"))
